@@ -4,6 +4,8 @@ import DadiVerif.Lemmas.FromPhiInb
 import DadiVerif.Lemmas.FromPhiConv
 import DadiVerif.Lemmas.FromPhiIntegral
 import DadiVerif.Lemmas.FromPhiMarg
+import DadiVerif.Lemmas.FromPhiLimitTendsto
+import DadiVerif.Lemmas.FromPhiTrapzND
 /-!
 # C05 — sampling a spectrum from φ is exact binomial integration on every code path
 
@@ -606,6 +608,348 @@ theorem C05_marginalize_direct (het : String) (ns : List ℕ) (grids : List (Arr
     (by rw [hl]; exact C05_marginalize_valid over _ hnd hov) (C05_marginalize_order over).2.2 φ T hTs hT
   rw [hl] at h
   exact h
+
+/-! ## Round 5 — the inbreeding path as F → 0⁺, the delegation test, which copy of the grid is read -/
+
+/-- **the delegation test of `from_phi_inbreeding` — read off the source — holds iff ALL inbreeding coefficients are 0** -/
+theorem C05_inb_delegates (Fs : List ℚ) : inbDelegates Fs = true ↔ ∀ F ∈ Fs, F = 0 := by
+  simp [inbDelegates]
+
+example : inbDelegates [0, (2 : ℚ) / 5] = false ∧ inbDelegates [0, 0, 0] = true := by
+  constructor <;> simp [inbDelegates]
+
+/-- **`from_phi_inbreeding` hands the call to plain `from_phi` (same options) iff all F are 0**; with at least one F ≠ 0 —
+    also when other populations have F exactly 0 — the inbreeding functions integrate -/
+theorem C05_inb_dispatch (het : String) (force : Bool) (ns : List ℕ) (grids : List (Array ℚ)) (p : Option ND) (Fs : List ℚ)
+    (pls : List ℕ) (T : ND) :
+    ((∀ F ∈ Fs, F = 0) → fromPhiInb het force ns grids p Fs pls T = fromPhi het force ns grids p T)
+    ∧ ((∃ F ∈ Fs, F ≠ 0) → fromPhiInb het force ns grids p Fs pls T = fromPhiInbMain het ns grids p Fs pls T) := by
+  constructor
+  · intro h
+    unfold fromPhiInb
+    rw [if_pos ((C05_inb_delegates Fs).mpr h)]
+  · rintro ⟨F, hF, hne⟩
+    unfold fromPhiInb
+    have : ¬ inbDelegates Fs = true := fun hd => hne ((C05_inb_delegates Fs).mp hd F hF)
+    rw [if_neg this]
+
+/-- **a population with F = 0 among inbred ones is sampled binomially**: on such an axis the operator of the inbreeding path
+    (the source's `F == 0` branch) is the operator of the direct path, ascertainment included -/
+theorem C05_inbreeding_zero_axis (dim a : ℕ) (h : ValidInbAxis dim a) (n P N : ℕ) (het : Bool) (x : ℕ → ℚ) (φ : ℕ → ℚ) (i : ℕ) :
+    (inbOp dim a n P N 0 het x).app φ i = (directOp dim a n N het x).app φ i := by
+  have hv : ValidAxis dim a := ⟨h.1, by have := h.2.1; omega, h.2.2⟩
+  rw [inbOp_app, directOp_app]
+  refine trapz_congr N x _ _ fun k _ => ?_
+  rw [inbWeight_zero dim a h, directWeight_eq dim a hv]
+
+example : ValidInbAxis 2 1 := ⟨by omega, by omega, by omega⟩
+
+/-- **F → 0⁺, one individual** (`exp(BetaBinomln)` with the generated parameters α = x(1−F)/F, β = (1−x)(1−F)/F): the
+    beta-binomial probability differs from the binomial probability C(P,i)x^i(1−x)^(P−i) by at most C(P,i)·P²·F/(1−F) -/
+theorem C05_betabinom_limit (P i : ℕ) (hi : i ≤ P) (x F : ℚ) (hx0 : 0 ≤ x) (hx1 : x ≤ 1) (hF0 : 0 < F) (hF1 : F < 1) :
+    |betaBinom P i (inbAlphaMid 1 0 x F) (inbBetaMid 1 0 x F) - bern P i x| ≤ (P.choose i : ℚ) * ((P : ℚ) * P) * (F / (1 - F)) := by
+  have hc : 0 < (1 - F) / F := div_pos (by linarith) hF0
+  have h := betaBinom_sub_bern P i hi x ((1 - F) / F) hx0 hx1 hc
+  simp only [inbAlphaMid, inbBetaMid]
+  refine h.trans (le_of_eq ?_)
+  have : (1 : ℚ) - F ≠ 0 := by linarith
+  field_simp
+
+example : (0 : ℚ) ≤ 1/3 ∧ (1/3 : ℚ) ≤ 1 ∧ (0 : ℚ) < 1/100 ∧ (1/100 : ℚ) < 1 := by norm_num
+
+/-- **the convolution of m binomial(P, x) laws — summed over `Numerics.part` with multinomial coefficients, as
+    `BetaBinomConvolution` does — is the binomial(P·m, x) law** (every ploidy, every number of individuals) -/
+theorem C05_conv_binom (m P i : ℕ) (x : ℚ) :
+    sumL ((part m i 0 P).map (convTerm P (fun v => bern P v x))) = bern (P * m) i x := conv_binom m P i x
+
+/-- **F → 0⁺ through the convolution** (`BetaBinomConvolution(i, m, α, β, ploidy=P)`, every ploidy P and every number m of
+    individuals): the convolved probability differs from the binomial(P·m, x) probability of the direct path by at most
+    `inbLimitConst m P`·F/(1−F), `inbLimitConst m P` = (P+1)^m·m·2^P·P² -/
+theorem C05_conv_limit (m P i : ℕ) (x F : ℚ) (hx0 : 0 ≤ x) (hx1 : x ≤ 1) (hF0 : 0 < F) (hF1 : F < 1) :
+    |betaBinomConv i m (inbAlphaMid 1 0 x F) (inbBetaMid 1 0 x F) P - bern (P * m) i x| ≤ inbLimitConst m P * (F / (1 - F)) := by
+  have hc : 0 < (1 - F) / F := div_pos (by linarith) hF0
+  have h := betaBinomConv_sub_bern m P i x ((1 - F) / F) hx0 hx1 hc
+  simp only [inbAlphaMid, inbBetaMid]
+  refine h.trans (le_of_eq ?_)
+  have : (1 : ℚ) - F ≠ 0 := by linarith
+  field_simp
+
+/-- **F → 0⁺, the sampling factor of `_from_phi_{1,2,3}D_direct_inbreeding` at a grid node** (any axis, ascertained or not,
+    sample size P·m): it differs from (binomial factor at the node) × (ascertainment multiplier) by at most
+    `inbLimitConst m P`·F/(1−F), where at the first / last node the code has replaced the frequency by 1e-20 / 1 − 1e-20
+    (`inbXeff`, read off the generated end-point parameters) -/
+theorem C05_inbreeding_factor_limit (dim a : ℕ) (h : ValidInbAxis dim a) (m P N : ℕ) (F : ℚ) (hF0 : 0 < F) (hF1 : F < 1)
+    (het : Bool) (x : ℕ → ℚ) (k i : ℕ) (hP : 0 < P) (hx : 0 ≤ x k ∧ x k ≤ 1) :
+    |inbWeight dim a (P * m) P N F het x k i - bern (P * m) i (inbXeff N x k) * hetMult het (x k)|
+      ≤ inbLimitConst m P * (F / (1 - F)) :=
+  inbWeight_sub_limit dim a h m P N F hF0 hF1 het x k i hP hx
+
+/-- the same as a limit: the factor tends to the binomial factor as F → 0⁺ (`Filter.Tendsto` in ℚ) -/
+theorem C05_inbreeding_factor_tendsto (dim a : ℕ) (h : ValidInbAxis dim a) (m P N : ℕ) (het : Bool)
+    (x : ℕ → ℚ) (k i : ℕ) (hP : 0 < P) (hx : 0 ≤ x k ∧ x k ≤ 1) :
+    Filter.Tendsto (fun F : ℚ => inbWeight dim a (P * m) P N F het x k i) (nhdsWithin 0 (Set.Ioi 0))
+      (nhds (bern (P * m) i (inbXeff N x k) * hetMult het (x k))) :=
+  inbWeight_tendsto dim a h m P N het x k i hP hx
+
+theorem inbFClamp_mem (F : ℚ) (hF : 0 ≤ F) : 0 ≤ inbFClamp F ∧ inbFClamp F < 1 := by
+  unfold inbFClamp ratMin
+  split_ifs with h
+  · exact ⟨hF, by linarith [show (1 : ℚ) - 1 / 10000000000 < 1 by norm_num]⟩
+  · constructor <;> norm_num
+
+/-- **`from_phi_inbreeding` against `from_phi(force_direct=True)`, entry by entry** (1–3 populations, any mixture of F = 0 and
+    F > 0, every ploidy dividing the sample size, ascertainment or not, grids from 0 to 1): the two spectra differ by at most
+    (Σ_a ε_a) · (d-fold trapezoid mass of |φ|), with ε_a = 0 for F_a = 0 and otherwise
+    ε_a = `inbLimitConst`·F_a/(1−F_a) + 2^n·n·1e-20 (the second term is the end-point patch of the code).  In particular the
+    difference vanishes linearly as all F → 0⁺, and a population with F = 0 contributes nothing. -/
+theorem C05_inbreeding_vs_direct (het : String) (ns : List ℕ) (grids : List (Array ℚ)) (Fs : List ℚ) (pls : List ℕ)
+    (hd1 : 1 ≤ grids.length) (hd : grids.length ≤ 3)
+    (hg : ∀ a, a < grids.length → UnitGrid (grids.getD a #[]))
+    (hF : ∀ a, a < grids.length → 0 ≤ Fs.getD a 0)
+    (hP : ∀ a, a < grids.length → 0 < pls.getD a 1 ∧ pls.getD a 1 ∣ ns.getD a 0) (φ : List ℕ → ℚ) (idx : List ℕ) :
+    |sampleND (inbOps het ns grids Fs pls) φ idx - sampleND (directOps het ns grids) φ idx|
+      ≤ ((List.range grids.length).map fun a =>
+            inbAxisEps (ns.getD a 0 / pls.getD a 1) (pls.getD a 1) (ns.getD a 0) (inbFClamp (Fs.getD a 0))).sum
+        * wSum ((List.range grids.length).map fun a =>
+            ((grids.getD a #[]).size, tw (grids.getD a #[]).size (gridFn (grids.getD a #[])))) (fun js => |φ js|) := by
+  let L : PairList := (List.range grids.length).map fun a =>
+    (inbOp grids.length a (ns.getD a 0) (pls.getD a 1) (grids.getD a #[]).size (inbFClamp (Fs.getD a 0))
+        (het == inbHetKey grids.length a) (gridFn (grids.getD a #[])),
+     directOp grids.length a (ns.getD a 0) (grids.getD a #[]).size (het == hetKey grids.length a) (gridFn (grids.getD a #[])),
+     tw (grids.getD a #[]).size (gridFn (grids.getD a #[])),
+     inbAxisEps (ns.getD a 0 / pls.getD a 1) (pls.getD a 1) (ns.getD a 0) (inbFClamp (Fs.getD a 0)))
+  have hL : ∀ t ∈ L, CloseOps t.1 t.2.1 t.2.2.1 t.2.2.2 := by
+    intro t ht
+    obtain ⟨a, ha, rfl⟩ := List.mem_map.mp ht
+    have ha' := List.mem_range.mp ha
+    have hv : ValidInbAxis grids.length a := ⟨hd1, hd, ha'⟩
+    obtain ⟨hPpos, m, hm⟩ := hP a ha'
+    obtain ⟨hF0, hF1⟩ := inbFClamp_mem _ (hF a ha')
+    have hdiv : ns.getD a 0 / pls.getD a 1 = m := by rw [hm]; exact Nat.mul_div_cancel_left m hPpos
+    have := inbOp_close_directOp grids.length a hv m (pls.getD a 1) (grids.getD a #[]) _ hF0 hF1
+      (het == hetKey grids.length a) hPpos (hg a ha')
+    simp only [inbHetKey_eq grids.length a hv, hdiv]
+    rw [hm]
+    exact this
+  have h := sampleND_sub_le L hL φ idx
+  have e1 : plOps L = inbOps het ns grids Fs pls := by simp [plOps, L, inbOps]
+  have e2 : plOps' L = directOps het ns grids := by simp [plOps', L, directOps]
+  have e3 : plEps L = ((List.range grids.length).map fun a =>
+      inbAxisEps (ns.getD a 0 / pls.getD a 1) (pls.getD a 1) (ns.getD a 0) (inbFClamp (Fs.getD a 0))).sum := by
+    simp [plEps, L, List.map_map, Function.comp_def]
+  have e4 : plW L = (List.range grids.length).map fun a =>
+      ((grids.getD a #[]).size, tw (grids.getD a #[]).size (gridFn (grids.getD a #[]))) := by
+    simp [plW, L, inbOp, List.map_map, Function.comp_def]
+  rw [e1, e2, e3, e4] at h
+  exact h
+
+/-- the hypotheses of `C05_inbreeding_vs_direct` are satisfiable: a diploid with F = 0 next to a tetraploid with F = 1/10 -/
+example : UnitGrid #[0, 1/2, 1] ∧ (0 : ℚ) ≤ ([0, 1/10] : List ℚ).getD 1 0
+    ∧ (0 < ([2, 4] : List ℕ).getD 1 1 ∧ ([2, 4] : List ℕ).getD 1 1 ∣ ([4, 8] : List ℕ).getD 1 0) := by
+  refine ⟨⟨by decide, by simp [gridFn], by simp [gridFn], ?_⟩, by norm_num, by decide, by decide⟩
+  intro k hk
+  have hk' : k = 0 ∨ k = 1 := by
+    have : k + 1 < 3 := hk
+    omega
+  rcases hk' with rfl | rfl <;> simp [gridFn] <;> norm_num
+
+/-- **all F = 0 without the delegation**: had `from_phi_inbreeding` not handed the call over, its own functions would return
+    exactly the direct-path spectrum — the delegation changes nothing but the route (and the bound above is 0) -/
+theorem C05_inbreeding_all_zero (het : String) (ns : List ℕ) (grids : List (Array ℚ)) (Fs : List ℚ) (pls : List ℕ)
+    (hd1 : 1 ≤ grids.length) (hd : grids.length ≤ 3) (hF : ∀ a, a < grids.length → Fs.getD a 0 = 0) :
+    inbOps het ns grids Fs pls = (List.range grids.length).map fun a =>
+      (⟨ns.getD a 0 + 1, (grids.getD a #[]).size,
+        (directOp grids.length a (ns.getD a 0) (grids.getD a #[]).size (het == hetKey grids.length a) (gridFn (grids.getD a #[]))).app⟩ : LineOp) := by
+  unfold inbOps
+  apply List.map_congr_left
+  intro a ha
+  have ha' := List.mem_range.mp ha
+  have hv : ValidInbAxis grids.length a := ⟨hd1, hd, ha'⟩
+  have hz : inbFClamp (Fs.getD a 0) = 0 := by
+    rw [hF a ha']; unfold inbFClamp ratMin; norm_num
+  rw [hz, inbHetKey_eq grids.length a hv]
+  unfold inbOp
+  congr 1
+  funext φ i
+  exact C05_inbreeding_zero_axis grids.length a hv _ _ _ _ _ φ i
+
+/-- **which copy of the grid every statement reads** (`Gen.FromPhi.clampTable`, regenerated from the source): every `betainc`
+    argument — both calls of `_from_phi_1D_analytic`, both calls of `cached_dbeta` — reads the clamped copy; the cache key of
+    `cached_dbeta` and the slopes / `c1` of the 2-D…5-D versions read the caller's array; the flags the model executes are
+    these table entries; and the clamp is the projection onto [0,1] -/
+theorem C05_clamp_table :
+    (∀ e ∈ clampTable, e.2.2.1 = true → e.2.2.2 = true)
+    ∧ (∀ e ∈ clampTable, e.2.2.1 = false → e.1 ≠ "_from_phi_1D_analytic" → e.2.2.2 = false)
+    ∧ (clampTable.filter (·.2.2.1)).length = 4 ∧ clampTable.length = 22
+    ∧ ("_from_phi_1D_analytic", "s", false, anGridS) ∈ clampTable ∧ ("_from_phi_1D_analytic", "c1", false, anGridC1) ∈ clampTable
+    ∧ ("_from_phi_1D_analytic", "betainc:beta1", true, anGridB1) ∈ clampTable
+    ∧ ("_from_phi_1D_analytic", "betainc:beta2", true, anGridB2) ∈ clampTable
+    ∧ ("cached_dbeta", "betainc:dbeta1", true, dbGridB1) ∈ clampTable
+    ∧ ("cached_dbeta", "betainc:dbeta2", true, dbGridB2) ∈ clampTable
+    ∧ ("cached_dbeta", "key", false, !dbKeyUnclamped) ∈ clampTable
+    ∧ (∀ x : ℚ, 0 ≤ clamp x ∧ clamp x ≤ 1 ∧ (0 ≤ x → x ≤ 1 → clamp x = x) ∧ dbClamp x = clamp x) := by
+  refine ⟨by decide, by decide, by decide, by decide, by decide, by decide, by decide, by decide, by decide, by decide, by decide, ?_⟩
+  intro x
+  unfold dbClamp clamp ratMin ratMax
+  refine ⟨?_, ?_, ?_, rfl⟩
+  · split_ifs <;> linarith
+  · split_ifs <;> linarith
+  · intro h0 h1
+    split_ifs <;> linarith
+
+/-! ## Round 5 — the direct (trapezoid) path against the semi-analytic path -/
+
+/-- **exact relation, one interval**: the semi-analytic term is F(x_{k+1}) − F(x_k), the term of the direct path is the trapezoid
+    rule h·(F'(x_{k+1}) + F'(x_k))/2 for the *same* polynomial F' = B_{n,d}·(interpolant) of degree n+1 (F built from the generated
+    `c1`/`c2` coefficients, `Fpoly`).  So direct − semi-analytic = Σ over intervals of the trapezoid error of F'. -/
+theorem C05_direct_vs_analytic_exact (n d : ℕ) (hd : d ≤ n) (x φ : ℕ → ℚ) (k : ℕ) (hk : x (k+1) ≠ x k) :
+    ∃ F : ℚ[X],
+      derivative F = bernsteinPolynomial ℚ n d * (C (φ k) + C (s (φ k) (φ (k+1)) (x k) (x (k+1))) * (X - C (x k)))
+      ∧ entry1D n d x φ k = F.eval (x (k+1)) - F.eval (x k)
+      ∧ (x (k+1) - x k) * (bern n d (x (k+1)) * φ (k+1) + bern n d (x k) * φ k) / 2
+          = (x (k+1) - x k) * ((derivative F).eval (x (k+1)) + (derivative F).eval (x k)) / 2 := by
+  obtain ⟨F, hF, hE⟩ := C05_1D_exact n d hd x φ k
+  refine ⟨F, hF, hE, ?_⟩
+  obtain ⟨i0, i1⟩ := C05_1D_interpolant x φ k hk
+  rw [hF, eval_mul, eval_mul, i0, i1, ← bern_eq_eval, ← bern_eq_eval]
+
+/-- … and the line of the direct path is the sum of these trapezoid terms -/
+theorem C05_direct_sum (dim a : ℕ) (h : ValidAxis dim a) (n N : ℕ) (x φ : ℕ → ℚ) (d : ℕ) :
+    (directOp dim a n N false x).app φ d
+      = ∑ k ∈ range (N - 1), (x (k+1) - x k) * (bern n d (x (k+1)) * φ (k+1) + bern n d (x k) * φ k) / 2 := by
+  rw [directOp_app, trapz, sumRange_eq]
+  refine Finset.sum_congr rfl fun k _ => ?_
+  simp only [directWeight_eq dim a h, hetMult, Bool.false_eq_true, if_false, mul_one]
+
+/-- **sample size 0: the two paths agree exactly** (the trapezoid rule is exact for the interpolant itself) -/
+theorem C05_direct_eq_analytic_n0 (dim a : ℕ) (h : ValidAxis dim a) (N : ℕ) (x φ : ℕ → ℚ)
+    (hx : ∀ k, clamp (x k) = x k) (hdist : ∀ k, k + 1 < N → x (k+1) ≠ x k) :
+    (directOp dim a 0 N false x).app φ 0 = fromPhi1D 0 N x φ 0 := by
+  rw [C05_direct_sum dim a h, fromPhi1D_def, sumRange_eq]
+  have e : (fun k => clamp (x k)) = x := funext hx
+  rw [e]
+  refine Finset.sum_congr rfl fun k hk => ?_
+  have hk' : k + 1 < N := by have := mem_range.mp hk; omega
+  have := entryG_sum_trapz 0 x φ k (hdist k hk')
+  simp only [zero_add, Finset.sum_range_one] at this
+  rw [entry1D_eq_entryG, this]
+  simp [bern, FromPhi.choose, fact]
+
+/-- **direct vs semi-analytic, one population**: on a strictly increasing grid inside [0,1] with spacing ≤ hmax the entry d ≤ n of
+    `_from_phi_1D_direct` differs from that of `_from_phi_1D_analytic` by at most 2·C(n,d)·n·hmax·(trapezoid mass of |φ|) — it
+    vanishes as the grid is refined, for every density of bounded mass (no smoothness needed) -/
+theorem C05_direct_vs_analytic_1D (n N d : ℕ) (hd : d ≤ n) (x φ : ℕ → ℚ) (hmax : ℚ)
+    (hx : ∀ k, clamp (x k) = x k) (hlt : ∀ k, k + 1 < N → x k < x (k+1)) (hh : ∀ k, k + 1 < N → x (k+1) - x k ≤ hmax) :
+    |(directOp 1 0 n N false x).app φ d - fromPhi1D n N x φ d|
+      ≤ 2 * ((n.choose d : ℚ) * n * hmax) * trapz N x (fun k => |φ k|) := by
+  have hx01 : ∀ k, k < N → 0 ≤ x k ∧ x k ≤ 1 := by
+    intro k _
+    rw [← hx k]
+    unfold clamp ratMin ratMax
+    constructor <;> split_ifs <;> linarith
+  have e : (fun k => clamp (x k)) = x := funext hx
+  have := direct_vs_analytic_line 1 0 ⟨le_refl _, by omega, by omega⟩ n N d hd x φ hmax hx01 hlt hh
+  rw [fromPhi1D_def, sumRange_eq, e]
+  simpa only [entry1D_eq_entryG] using this
+
+example : ∀ k, k + 1 < 3 → ((k : ℕ) / 2 : ℚ) < ((k + 1 : ℕ) / 2 : ℚ) := by
+  intro k _
+  push_cast
+  linarith
+
+/-- **direct vs semi-analytic, 1–4 populations, entry by entry**: for grids strictly increasing inside [0,1] with spacings
+    ≤ hs_a, every entry inside the box of `_from_phi_{d}D_direct` differs from that of `_from_phi_{d}D_linalg` by at most
+    `dvaErr [ε_0, …, ε_{d−1}]` · (d-fold trapezoid mass of |φ|), ε_a = 2·2^{n_a}·n_a·hs_a,
+    dvaErr = Σ_a ε_a·Π_{b>a}(1+ε_b) → 0 as the grids are refined -/
+theorem C05_direct_vs_analytic_ND (ns : List ℕ) (grids : List (Array ℚ)) (hs : List ℚ) (hd1 : 1 ≤ grids.length) (hd : grids.length ≤ 4)
+    (hg : ∀ a, a < grids.length →
+      (∀ k, clamp (gridFn (grids.getD a #[]) k) = gridFn (grids.getD a #[]) k)
+      ∧ (∀ k, k + 1 < (grids.getD a #[]).size → gridFn (grids.getD a #[]) k < gridFn (grids.getD a #[]) (k+1))
+      ∧ (∀ k, k + 1 < (grids.getD a #[]).size → gridFn (grids.getD a #[]) (k+1) - gridFn (grids.getD a #[]) k ≤ hs.getD a 0)
+      ∧ 0 ≤ hs.getD a 0)
+    (φ : List ℕ → ℚ) (idx : List ℕ) (hidx : InBox ((linalgOps ns grids).map (·.nOut)) idx) :
+    |sampleND (linalgOps ns grids) φ idx - sampleND (directOps "" ns grids) φ idx|
+      ≤ dvaErr ((List.range grids.length).map fun a => dvaEps (ns.getD a 0) (hs.getD a 0))
+        * wSum ((List.range grids.length).map fun a =>
+            ((grids.getD a #[]).size, tw (grids.getD a #[]).size (gridFn (grids.getD a #[])))) (fun js => |φ js|) := by
+  let L : PertList := (List.range grids.length).map fun a =>
+    (analyticOp a (ns.getD a 0) (grids.getD a #[]).size (gridFn (grids.getD a #[])),
+     directOp grids.length a (ns.getD a 0) (grids.getD a #[]).size false (gridFn (grids.getD a #[])),
+     tw (grids.getD a #[]).size (gridFn (grids.getD a #[])),
+     1 + dvaEps (ns.getD a 0) (hs.getD a 0), dvaEps (ns.getD a 0) (hs.getD a 0))
+  have hL : ∀ t ∈ L, PertOk t := by
+    intro t ht
+    obtain ⟨a, ha, rfl⟩ := List.mem_map.mp ht
+    have ha' := List.mem_range.mp ha
+    obtain ⟨h1, h2, h3, h4⟩ := hg a ha'
+    exact analytic_direct_pertOk grids.length a ⟨hd1, hd, ha'⟩ _ _ _ h1 h2 h3 h4
+  have hM : ∀ t ∈ L, t.2.2.2.1 = 1 + t.2.2.2.2 := by
+    intro t ht
+    obtain ⟨a, _, rfl⟩ := List.mem_map.mp ht
+    rfl
+  have e1 : ptOps L = linalgOps ns grids := by simp [ptOps, L, linalgOps, List.map_map, Function.comp_def]
+  have e2 : ptOps' L = directOps "" ns grids := by
+    simp only [ptOps', L, directOps, List.map_map, Function.comp_def]
+    apply List.map_congr_left
+    intro a ha
+    rw [hetKey_ne_empty grids.length a ⟨hd1, hd, List.mem_range.mp ha⟩]
+  have e3 : ptE L = dvaErr ((List.range grids.length).map fun a => dvaEps (ns.getD a 0) (hs.getD a 0)) := by
+    rw [ptE_eq L hM]
+    simp [L, List.map_map, Function.comp_def]
+  have e4 : ptW L = (List.range grids.length).map fun a =>
+      ((grids.getD a #[]).size, tw (grids.getD a #[]).size (gridFn (grids.getD a #[]))) := by
+    simp [ptW, L, analyticOp, List.map_map, Function.comp_def]
+  have h := sampleND_sub_le_abs L hL φ idx (by rw [e1]; exact hidx)
+  rw [e1, e2, e3, e4] at h
+  exact h
+
+/-! ## Round 5 — over-shooting grids in d ≥ 2 (`cached_dbeta` clamps a copy, slopes read the caller's grid) -/
+
+/-- **what a stage of `_from_phi_{2..5}D_linalg` computes on ANY grid**: the sum over intervals of F_k(clamp x_{k+1}) − F_k(clamp x_k)
+    with F_k' = B_{n,d}·(φ_k + s_k(X − x_k)), slope s_k from the caller's nodes — i.e. the exact integral, over the part of each
+    interval inside [0,1], of the interpolant of the density on the grid it was defined on (which, for distinct nodes, takes the
+    values φ_k, φ_{k+1} at the caller's nodes x_k, x_{k+1}) -/
+theorem C05_ND_clamp_exact (a n N : ℕ) (ha : a < 5) (d : ℕ) (hd : d ≤ n) (x φ : ℕ → ℚ) :
+    ∃ F : ℕ → ℚ[X],
+      (∀ k, derivative (F k) = bernsteinPolynomial ℚ n d * (C (φ k) + C (s (φ k) (φ (k+1)) (x k) (x (k+1))) * (X - C (x k))))
+      ∧ (analyticOp a n N x).app φ d = ∑ k ∈ range (N - 1), ((F k).eval (clamp (x (k+1))) - (F k).eval (clamp (x k))) := by
+  refine ⟨fun k => Fpoly n d (φ k - s (φ k) (φ (k+1)) (x k) (x (k+1)) * x k) (s (φ k) (φ (k+1)) (x k) (x (k+1))), ?_, ?_⟩
+  · intro k
+    rw [Fpoly_derivative n d hd]
+    congr 1
+    simp only [map_sub, map_mul]
+    ring
+  · rw [analyticOp_app a n N ha]
+    exact Finset.sum_congr rfl fun k _ => entryG_eq n d x _ φ k
+
+/-- **mass on an over-shooting grid**: the entries of a stage add up to Σ_k ∫ over [clamp x_k, clamp x_{k+1}] of that interpolant -/
+theorem C05_ND_clamp_mass (a n N : ℕ) (ha : a < 5) (x φ : ℕ → ℚ) :
+    ∑ d ∈ range (n+1), (analyticOp a n N x).app φ d
+      = ∑ k ∈ range (N - 1),
+          ((φ k - s (φ k) (φ (k+1)) (x k) (x (k+1)) * x k) * (clamp (x (k+1)) - clamp (x k))
+            + s (φ k) (φ (k+1)) (x k) (x (k+1)) / 2 * (clamp (x (k+1)) ^ 2 - clamp (x k) ^ 2)) := by
+  simp only [analyticOp_app a n N ha]
+  rw [Finset.sum_comm]
+  exact Finset.sum_congr rfl fun k _ => entryG_sum n x _ φ k
+
+/-- **over-shoot by δ changes a stage by at most δ·(total variation of the density along the line)**: for a grid whose nodes
+    satisfy x_k ≤ clamp x_k < clamp x_{k+1} ≤ x_{k+1} (e.g. xx[0] = −1e-16, xx[-1] = nextafter(1,2)) and |clamp x_k − x_k| ≤ δ, the stage
+    of the 2-D…5-D versions differs from the computation on the clamped grid — `fromPhi1D`, for which exactness, mass,
+    projection and marginalisation are proved — by at most δ·Σ_k |φ_{k+1} − φ_k| -/
+theorem C05_ND_overshoot (a n N d : ℕ) (ha : a < 5) (hd : d ≤ n) (x φ : ℕ → ℚ) (δ : ℚ)
+    (hx : ∀ k, k + 1 < N → x k ≤ clamp (x k) ∧ clamp (x k) < clamp (x (k+1)) ∧ clamp (x (k+1)) ≤ x (k+1))
+    (hδ : ∀ k, k < N → |clamp (x k) - x k| ≤ δ) :
+    |(analyticOp a n N x).app φ d - fromPhi1D n N x φ d| ≤ δ * ∑ k ∈ range (N - 1), |φ (k+1) - φ k| :=
+  overshoot_line a n N d ha hd x φ δ hx hδ
+
+/-- the hypotheses are satisfiable by a grid over-shooting at both ends by 1e-16 -/
+example : ∀ k, k + 1 < 3 →
+    (gridFn #[-1/10^16, 1/2, 1 + 1/10^16] k ≤ clamp (gridFn #[-1/10^16, 1/2, 1 + 1/10^16] k)
+      ∧ clamp (gridFn #[-1/10^16, 1/2, 1 + 1/10^16] k) < clamp (gridFn #[-1/10^16, 1/2, 1 + 1/10^16] (k+1))
+      ∧ clamp (gridFn #[-1/10^16, 1/2, 1 + 1/10^16] (k+1)) ≤ gridFn #[-1/10^16, 1/2, 1 + 1/10^16] (k+1)) := by
+  intro k hk
+  have hk' : k = 0 ∨ k = 1 := by omega
+  rcases hk' with rfl | rfl <;> simp [gridFn, clamp, ratMin, ratMax] <;> norm_num
 
 /-! ## wiring read off the source -/
 
